@@ -166,6 +166,15 @@ Section Generic.
       (narrow_implies_aabb_overlap C le coll aabb_of narrow -> (exists f g, hits st f g) -> b = true).
   Proof. exact (detect_any_spec_st C le cmin cmax le_trans cmin_l cmin_r cmax_l cmax_r
                  frame feqb feqb_spec coll pose aabb_of narrow). Qed.
+  (** detect and detect_any are consistent: some frame is marked iff detect_any is True. *)
+  Theorem detect_any_consistent : forall st,
+    Inv st -> wl_total C frame feqb coll pose st ->
+    narrow_implies_aabb_overlap C le coll aabb_of narrow ->
+    exists contacts b, detect C le frame feqb coll pose aabb_of narrow st = XOk contacts /\
+      detect_any C le frame feqb coll pose aabb_of narrow st = XOk b /\
+      ((exists f, dict_get feqb contacts f = Some true) <-> b = true).
+  Proof. exact (BvhDetect.detect_any_consistent C le cmin cmax le_trans cmin_l cmin_r cmax_l cmax_r
+                 frame feqb feqb_spec coll pose aabb_of narrow). Qed.
 End Generic.
 
 (** poses_current with the collider state machine of C14 plugged in: [upd] = update_pose with
@@ -397,6 +406,7 @@ Print Assumptions bvh_self_query_exact.
 Print Assumptions detect_spec.
 Print Assumptions detect_spec_symmetric.
 Print Assumptions detect_any_spec.
+Print Assumptions detect_any_consistent.
 Print Assumptions poses_current_colliders.
 Print Assumptions bvh_box_query_exact_after_history.
 Print Assumptions fill_tree_is_a_history.
